@@ -180,7 +180,30 @@ func times() []time.Time {
 
 var revs = []string{"0", "A", "z9", "abcdef123456", "0123456789abcdef0123456789abcdef01234567", "000000000000", "Z", "999999999999"}
 
+// FirstCalls is the menu of the fresh-process call-order check.
+func FirstCalls() []fw.Call {
+	t0 := time.Date(2019, 3, 4, 5, 6, 7, 0, time.FixedZone("", 2*3600))
+	var out []fw.Call
+	for _, base := range []string{"", "v1.2.3", "v1.2.3-pre", "v2.0.0+incompatible"} {
+		base := base
+		out = append(out, fw.Call{Name: "PseudoVersion(" + base + ")", F: func() string {
+			return module.PseudoVersion("v1", base, t0, "abcdef123456")
+		}})
+	}
+	for _, v := range []string{"v0.0.0-20190304030607-abcdef123456", "v1.2.4-0.20190304030607-abcdef123456", "v1.2.3-pre.0.20190304030607-abcdef123456", "v1.2.3"} {
+		v := v
+		out = append(out, fw.Call{Name: "accessors(" + v + ")", F: func() string {
+			tm, e1 := module.PseudoVersionTime(v)
+			rv, e2 := module.PseudoVersionRev(v)
+			b, e3 := module.PseudoVersionBase(v)
+			return fmt.Sprint(module.IsPseudoVersion(v), tm.UTC(), e1, rv, e2, b, e3, module.IsZeroPseudoVersion(v))
+		}})
+	}
+	return out
+}
+
 func Run(r *fw.Run) {
+	defer fw.FirstCallOrders(r, r.ID, FirstCalls(), nil)
 	bs := bases(r.Thorough())
 	ts := times()
 	r.Bounds["bases"] = len(bs)
